@@ -40,10 +40,12 @@ Record ncfg := { is_fun : fname -> bool;      (* in cls._functions *)
                  is_attr : fname -> bool;     (* in cls._attributes *)
                  top_bound : fname -> bool }. (* bound by name at import time in the namespace the route RTop looks at *)
 
-(* descr_class : does the descriptor serve an access through the CLASS (instance None)?  The current tree tests
-   `if isinstance is None` (the builtin, never None) and then calls None.current_backend(): false *)
+(* descr_class : does the descriptor serve an access through the CLASS (instance None)?  Since /repo commit 0b04404 it
+   does (`if instance is None: return getattr(cls.current_backend(), self.name)`); before, the test read
+   `if isinstance is None` (the builtin, never None) and the access ended in None.current_backend(): AttributeError *)
 Record drules := { descr_class : bool }.
-Definition tree_drules : drules := {| descr_class := false |}.
+Definition tree_drules : drules := {| descr_class := true |}.
+Definition drules_before_0b04404 : drules := {| descr_class := false |}.
 
 Record dst := { d_sel : st;                      (* the selection state of Model/Backend.v *)
                 d_cls : fname -> slot;           (* class attributes of the manager *)
@@ -53,7 +55,9 @@ Record dst := { d_sel : st;                      (* the selection state of Model
 Inductive route :=
 | RMgr        (* tensorly.backend.n / tensorly.tenalg.n : attribute of the manager MODULE (an instance of the class) *)
 | RTop        (* tensorly.n (backend) / <library module>.n (tenalg): import-time binding, else module __getattr__ *)
-| RClass.     (* BackendManager.n / TenalgBackendManager.n : attribute of the class itself *)
+| RClass      (* BackendManager.n / TenalgBackendManager.n : attribute of the class itself *)
+| RLib.       (* LIBRARY code: `from . import backend as T` ... `T.n` (tensorly/base.py, cp_tensor.py, the tenalg
+                 implementations ...), `tl.tenalg.n`: the alias is the manager module object, looked up on every use *)
 
 Definition eval_slot (nc : ncfg) (s : st) (t : tid) (via_instance : bool) (D : drules) (sl : slot) (n : fname) : value :=
   match sl with
@@ -65,7 +69,7 @@ Definition eval_slot (nc : ncfg) (s : st) (t : tid) (via_instance : bool) (D : d
 
 Definition eval (D : drules) (nc : ncfg) (d : dst) (t : tid) (r : route) (n : fname) : value :=
   match r with
-  | RMgr => eval_slot nc (d_sel d) t true D (d_cls d n) n
+  | RMgr | RLib => eval_slot nc (d_sel d) t true D (d_cls d n) n
   | RClass => eval_slot nc (d_sel d) t false D (d_cls d n) n
   | RTop => match d_top d n with
             | Some v => v
@@ -178,3 +182,78 @@ Definition initialize (R : rules) (c : cfg) (listed : name -> bool) (env : optio
   | Some s => IOk (negb (listed req)) s
   | None => IFail (negb (listed req))
   end.
+
+(* ------------------------------------------------------------------ re-binding under concurrency (micro-steps)
+
+   use_dynamic_dispatch() walks over the dispatched names and re-binds every one on the manager class:
+       if hasattr(cls, name): delattr(cls, name)        (RDel)
+       setattr(cls, name, staticmethod(closure))         (RSet)
+   Between two acts of the re-binding thread any other thread may look a name up on the class.  with_del = false
+   is the loop without the delattr (setattr replaces the attribute in one step). *)
+Inductive ract := RDel (n : fname) | RSet (n : fname) (s : slot).
+
+Definition rexec (cl : fname -> slot) (a : ract) : fname -> slot :=
+  match a with
+  | RDel n => fun k => if Nat.eqb k n then SAbsent else cl k
+  | RSet n s => fun k => if Nat.eqb k n then s else cl k
+  end.
+
+Definition rprog (with_del : bool) (fresh : fname -> slot) (names : list fname) : list ract :=
+  flat_map (fun n => if with_del then [RDel n; RSet n (fresh n)] else [RSet n (fresh n)]) names.
+
+(* a schedule: the re-binding thread executes its next act (true) / another thread looks name n up (false);
+   the answer of every look-up, in order *)
+Fixpoint rsched (cl : fname -> slot) (prog : list ract) (l : list (bool * fname)) : list slot :=
+  match l with
+  | [] => []
+  | (true, _) :: l' => match prog with a :: prog' => rsched (rexec cl a) prog' l' | [] => rsched cl [] l' end
+  | (false, n) :: l' => cl n :: rsched cl prog l'
+  end.
+
+(* ------------------------------------------------------------------ register_backend_method
+
+   register_backend_method(name, f) = cls.current_backend().register_method(name, f)
+                                    = setattr(type(current_backend()), name, staticmethod(f))
+   The method lands on the CLASS of the calling thread's current backend object: every instance of that class, and of
+   every subclass that does not define the name itself, has it from then on - in every thread.  The dispatch closure
+   of a name resolves `getattr(current backend of the caller, name)` at call time, so what runs is whatever the class
+   of THAT object provides at THAT moment; AttributeError if it provides nothing.
+   Classes are identified with backend names (name_of); v = which implementation (0 native, k > 0 the k-th registered). *)
+Inductive mslot := MInherit | MMissing | MHas (v : nat).
+Record hcfg := { cparent : name -> option name }.
+Definition mtab := name -> fname -> mslot.
+
+Definition lookup (H : hcfg) (mt : mtab) (cl : name) (n : fname) : option nat :=
+  match mt cl n with
+  | MHas v => Some v
+  | MMissing => None
+  | MInherit => match cparent H cl with
+                | Some p => match mt p n with MHas v => Some v | _ => None end
+                | None => None
+                end
+  end.
+
+Definition register (c : cfg) (s : st) (mt : mtab) (t : tid) (n : fname) (v : nat) : mtab :=
+  let cl := name_of c (cur s t) in
+  fun k m => if Nat.eqb k cl && Nat.eqb m n then MHas v else mt k m.
+
+(* the closure of name n called in thread t: (executing object, implementation) | AttributeError *)
+Definition which (H : hcfg) (c : cfg) (s : st) (mt : mtab) (t : tid) (n : fname) : option (inst * nat) :=
+  let b := cur s t in option_map (pair b) (lookup H mt (name_of c b) n).
+
+Inductive rop := RSel (o : op) | RReg (t : tid) (n : fname) (v : nat) | RCall (t : tid) (n : fname).
+Inductive robs := RSelObs (o : obs) | RNone | RRan (r : option (inst * nat)).
+Record rst := { r_sel : st; r_mt : mtab }.
+
+Definition rstep (R : rules) (H : hcfg) (c : cfg) (x : rst) (o : rop) : rst * robs :=
+  match o with
+  | RSel o => let r := step R c (r_sel x) o in ({| r_sel := fst r; r_mt := r_mt x |}, RSelObs (snd r))
+  | RReg t n v => ({| r_sel := r_sel x; r_mt := register c (r_sel x) (r_mt x) t n v |}, RNone)
+  | RCall t n => (x, RRan (which H c (r_sel x) (r_mt x) t n))
+  end.
+Definition rnxt R H c x o : rst := fst (rstep R H c x o).
+Definition rout R H c x o : robs := snd (rstep R H c x o).
+Definition rrun R H c (x : rst) (h : list rop) : rst := fold_left (rnxt R H c) h x.
+Fixpoint rtrace R H c (x : rst) (h : list rop) : list robs :=
+  match h with [] => [] | o :: h' => rout R H c x o :: rtrace R H c (rnxt R H c x o) h' end.
+Definition rsel_ops (h : list rop) : list op := flat_map (fun o => match o with RSel o => [o] | _ => [] end) h.
